@@ -7,43 +7,43 @@ HERE = os.path.dirname(os.path.abspath(__file__))
 
 # id -> (technique, level text, level note, design ref)
 CLAIMED = {
- "C01": ("wire-layout abstract interpretation with a bit-provenance domain: E(D(x)) = x per bit, per discriminant configuration (boxes and the inner codecs of sample-group entries, tfxd/tfrf); committed don't-care ledger; CFG path rules on the decoders (sticky reader error consulted, trial-parse cleanup on failure), inferred counter/list lockstep pairs; reader/writer field order and width agreement (CFG reachability between SliceReader and SliceWriter call sites) also for irregular boxes and descriptors; append-alias lint",
+ "C01": ("wire-layout abstract interpretation with a bit-provenance domain: E(D(x)) = x per bit, per discriminant configuration (boxes and the inner codecs of sample-group entries, tfxd/tfrf); committed don't-care ledger; CFG path rules on the decoders (sticky reader error consulted, trial-parse cleanup on failure), inferred counter/list lockstep pairs; reader/writer field order and width agreement (CFG reachability between SliceReader and SliceWriter call sites) also for irregular boxes and descriptors; append-alias lint; AddChild must-store-Children path rule",
          "Structural part only: for every registered box type outside a frozen irregular table, and every configuration of its discriminants (version, flag bits, compared counts, header length, presence predicates), each bit the encoder writes is the input bit the decoder kept for that position, or a constant where the decoder discards (and those runs are on the committed don't-care list); field order, widths, guards and loop structure agree; for mdat (the box that records its header form) the written header is as long as the decoded one. Not decided: irregular boxes (esds, meta, senc, sgpd, uuid, moof, hdlr, mime), numeric loop bounds, value arithmetic in opaque expressions, the decode-again fixed point.",
          "the interpreter models the bits.* stream APIs and analyses loops on one generic iteration; integer conversions inside opaque arithmetic are assumed value-preserving; children are opaque (each child type is its own obligation).", "DESIGN.md §3 E1, §4 C01"),
  "C02": ("wire-layout abstract interpretation: symbolic byte count of EncodeSW vs Size() as polynomials per configuration, header writers interpreted; wrapper-shape rule; member-set agreement of composites on a symbolic receiver; narrow-multiplication lint over the size functions; live-children rule; make-then-append lint; trial-parse cleanup path rule; size-dependence rule (fields Size() reads vs fields EncodeSW reads); dependence clause on the modelled string writer",
          "Structural part only: per configuration the symbolic number of bytes EncodeSW writes equals Size() and the header carries Size() of the same box (all registered box types outside the irregular table, avc/hevc/av1 configuration records through their boxes); every Encode wrapper allocates exactly Size(); no product of two non-constant values in a size function is computed in 32 bits or fewer and only then widened; Size/Encode/EncodeSW of File, InitSegment, MediaSegment and Fragment visit the same members. Not decided: irregular boxes, numeric equality of loop bounds, idempotence of repeated encodes, API-built box values that violate decoder-established length facts.",
          "as C01; composites are analysed on a symbolic receiver whose members are opaque.", "DESIGN.md §3 E1/E7, §4 C02"),
- "C03": ("registry/delegation/wrapper shape rules over go/types + go/ssa; wire-layout sibling comparison; size-dependence rule; stale-read-across-impure-observer ordering rule",
+ "C03": ("registry/delegation/wrapper shape rules over go/types + go/ssa; wire-layout sibling comparison; size-dependence rule; encoder-pair condition agreement; position-from-input dependence rules; stale-read-across-impure-observer ordering rule",
          "Structural necessary conditions only: the two decoder registries agree key-by-key (same pairing, same concrete box types), every delegating reader-path decoder delegates to its registered twin over exactly its own body, every Encode wrapper allocates Size() and writes what EncodeSW produced, separately written decoder/encoder pairs have the same wire layout, the file-level encoders visit the same members. Not decided: numeric equality of start positions, error texts.",
          "go/types + go/ssa of x/tools v0.29.0 are trusted; dynamic calls in decoders are not resolved (none today).", "DESIGN.md §4 C03"),
- "C04": ("SSA taint + dominance guard analysis (allocations, loops, constant and untrusted indices, divisions, cursor width) with checked data-structure invariants; nil-guard dominance on optional child fields and nil-able getter results; checked type assertions; must-pass-through rules on the header decoders (size vs header length) and on segment creation; call-graph reachability of explicit panics, who-may-call on storage-sharing reader methods; library-wide error discipline",
+ "C04": ("SSA taint + dominance guard analysis (allocations, loops, constant and untrusted indices, divisions, cursor width) with checked data-structure invariants; nil-guard dominance on optional child fields and nil-able getter results; checked type assertions; must-pass-through rules on the header decoders (size vs header length) and on segment creation; cross-slice index, scanner slice-bound and overflow-safe-guard rules; call-graph reachability of explicit panics, who-may-call on storage-sharing reader methods; library-wide error discipline",
          "Structural necessary conditions over everything reachable from the decode / Info / Encode / Size entry points: no explicit panic reachable; every constant index or constant slice bound is dominated by a length test, long enough by construction, or rests on a named invariant that is itself checked; an input-derived index is compared with the length of the slice it selects from (or cannot reach a fixed table length); every division by a non-constant is dominated by a non-zero test or a checked invariant; a slice made in a function is indexed below its length in counted loops; a cursor advanced by an untrusted length is wider than the length; DecodeBoxSR compares the unsigned box size itself with the remaining bytes; every allocation sized by a wide untrusted value (reader results, BoxHeader.Size on the reader path) is dominated by a comparison on that value (also recognised when the value was validated where it was stored into a struct field, under conditions that hold at the allocation); every cycle of a loop that consumes the stream passes an error test of the sticky-error reader, an exit taken on all-zero data, or a bounded counter test; a field holding an optional child box is dereferenced only after a nil test (or a fresh store, a correlated test, or a test at every call site); an unchecked type assertion on a box stands under a box-type-name test for which every registered decoder returns exactly the asserted type; io.ReadAll only on io.LimitReader; no decoder keeps storage of the reader it was given. Not decided: indices computed from non-input values outside counted loops, nil dereferences other than of optional child fields, correctness of a guard's arithmetic beyond the listed forms, time constants.",
          "taint is flow-insensitive on struct fields (and on the elements of slice-typed fields); for allocations and reading loops a guard is a dominating comparison sharing a taint root that bounds the tainted side from above (arithmetic not checked); taint follows static calls and VTA-resolved dynamic calls; the 14 invariant entries are a frozen table, each with its structural check; call graph VTA.", "DESIGN.md §3 E3/E4, §4 C04"),
- "C05": ("ordering (dominance) and data-dependence obligations over go/ssa for the fragment write/read path; adopt-then-append ownership rule; narrow-accumulator lint",
+ "C05": ("ordering (dominance) and data-dependence obligations over go/ssa for the fragment write/read path; adopt-then-append ownership rule; narrow-accumulator lint; lazy-size reset ordering rule",
          "Narrow clauses only: SetTrunDataOffsets dominates every child encode and follows OptimizeTfhdTrun; decode time is set only under a test of the track's first run; appended samples are accounted in mdat; run numbers come from nextTrunNr which is advanced; trun data offsets depend on Moof.Size(), Mdat.HeaderSize(), SizeOfData() and write order; read-side offsets/times/defaults depend on the tfhd/trex/tfdt/trun/mdat quantities the standard names; trun optimisation compares samples with ==/!= only. Not decided: numeric correctness of offsets, arbitrary multi-track interleavings, optimisation correctness.",
          "dependence is intraprocedural SSA data dependence plus return dependence of repository callees (3 levels).", "DESIGN.md §4 C05"),
- "C06": ("loop-cycle pairing rule, data-dependence and ordering obligations over go/ssa for the encrypt/decrypt path; every-iteration path rule; read-only storage rule for tenc; nil-then-range lint",
+ "C06": ("loop-cycle pairing rule, data-dependence and ordering obligations over go/ssa for the encrypt/decrypt path; every-iteration path rule; read-only storage rule for tenc; nil-then-range lint; every-cycle-calls path rule for the per-sample bookkeeping; down-counting index rule",
          "Narrow clauses only: RemoveEncryptionBoxes keeps or counts every child; DataOffset correction depends on the removed byte counts; saio offset depends on the sizes of all boxes preceding the senc data; DecryptInit attaches a trex to a track info only under a test of equal track ids; ContainsSencBox answers not-found only after all children; original sample entry type captured before renaming and restored from frma; senc/saiz record the iv and pattern actually used, iv advanced afterwards (cenc) or never (cbcs); decrypt uses senc/tenc values. Not decided: byte-exact restoration, cipher arithmetic, counter wrap.",
          "as C05.", "DESIGN.md §4 C06"),
- "C07": ("normalised-AST sibling comparison, who-may-construct over the call graph, ordering/dependence obligations, fresh-block-mode-per-range rule, sibling-list lint on twin loop bodies",
+ "C07": ("normalised-AST sibling comparison, who-may-construct over the call graph, ordering/dependence obligations, fresh-block-mode-per-range rule, sibling-list lint on twin loop bodies, cursor-skip rule on the sub-sample walkers",
          "Narrow clauses only: GetAVCProtectRanges and GetHEVCProtectRanges are identical modulo avc/hevc; SubSamplePattern values on the encrypt path are built only by AppendProtectRange; senc/saiz describe what the crypt call used and the iv advance order is right; saio offset depends on the preceding boxes; in cbcs the CBC block mode used for a protected range is created from the IV for that range. NOT decided: equality with a reference cipher, block/pattern arithmetic, partition exactness, IV carry arithmetic.",
          "clone comparison ignores comments, local names and error texts.", "DESIGN.md §4 C07"),
  "C08": ("data-dependence, shape and strictness rules over go/ssa for the lazy-mdat path; dominance rules: absolute seek before every positional read, non-negative test before a relative seek; fresh-result rule",
          "Narrow clauses only: lazy payload size and seek distance depend on box size AND actual header length; the three mdat decoders derive LargeSize/StartPos alike; DecodeBoxLazyMdat has the same header-decode / registry lookup / unknown fallback / decoder call as DecodeBox and seeks only after a successful lazy decode; ReadData/CopyData reject a range end only when strictly beyond the data; direct file-to-writer copies in CopySampleData happen only without a work buffer and the buffer remainder is flushed; File.AddChild's previous-mdat-is-empty test depends on the lazily decoded size; first-chunk and last-chunk clipping are independent; no payload start is StartPos plus a constant. Not decided: seek arithmetic values, refill correctness for all buffer sizes.",
          "dependence is intraprocedural SSA data dependence plus return dependence of repository callees.", "DESIGN.md §4 C08"),
- "C09": ("coherence-group rule, narrow-multiplication lint, linear index-vs-length comparison, dependence and independence clauses over go/ssa",
+ "C09": ("coherence-group rule, narrow-multiplication lint, divide-before-multiply lint, linear index-vs-length comparison, dependence and independence clauses over go/ssa",
          "Narrow clauses only: a per-interval result slice is indexed below the length it was made with for every interval the entry tests allow; GetContainingChunks looks the stsc entry up per chunk; a present stss decides sync status also when empty; first/last chunk clipping are independent; every function in every package that stores the length-defining member of a sample table also stores its cached/parallel members; no product of two non-constant 32-bit values is widened only after the multiplication in the sample-table query code. The queries' index arithmetic (binary searches, run-length walks, chunk mapping) is NOT decided.",
          "coherence groups are a frozen table confirmed by reading.", "DESIGN.md §4 C09"),
- "C10": ("switch exhaustiveness (AST), coherence-group rule, narrow-multiplication lint, strict-upper-bound rule (also through predicate helpers), inferred counter/list lockstep pairs (CFG path rule), data-dependence of the written chunk offsets",
+ "C10": ("switch exhaustiveness (AST), coherence-group rule, narrow-multiplication lint, strict-upper-bound rule (also through predicate helpers), inferred counter/list lockstep pairs (CFG path rule), data-dependence of the written chunk offsets, divide-before-multiply lint",
          "Narrow clauses only: the crop switch handles all eight sample-table box types by calling a crop/update function; crop functions keep parallel/cached table members in step; no 32-bit product widened after the multiplication in the time/offset code the tool uses; the cropped stsz count comes from the cut point; no payload start is StartPos plus a constant. Not decided: the cut point, sync-sample selection, durations.",
          "as C09.", "DESIGN.md §4 C10"),
- "C11": ("error-discipline path analysis over go/ssa (error value must be used on every path from the call); boundary, fallback and independence clauses; loop-carried buffer alias lint",
+ "C11": ("error-discipline path analysis over go/ssa (error value must be used on every path from the call); boundary, fallback and independence clauses; loop-carried buffer alias lint; struct-overwrite dead-store lint",
          "Narrow clauses only: the segmenter's last (inclusive) sample interval ends at the sample count itself; a default duration handed to TrunBox.Duration/CommonSampleDuration is resolved from tfhd and trex; sample bytes are located from the mdat box's own header length; first/last chunk clipping in the lazy copy are independent; in the segmenter, resegmenter and combine-segs examples and MediaSegment.Fragmentify, no error from a sample-moving call is discarded or overtaken by a decision on the co-returned value. Sample conservation as a whole (interval arithmetic, sync starts) is NOT decided.",
          "printing and Close calls are outside the rule.", "DESIGN.md §4 C11"),
- "C12": ("member-set agreement on a symbolic receiver, delimiter-order rule (SSA), data-dependence, coherence groups, ordering clauses",
+ "C12": ("member-set agreement on a symbolic receiver, delimiter-order rule (SSA), data-dependence, coherence groups, ordering clauses, delimiter-consultation and position-from-header rules",
          "Narrow clauses only: Size/Encode/EncodeSW of File, MediaSegment and Fragment visit the same members in the same order; index delimiters take precedence over the start-on-moof option; sidx reference size/duration depend on MediaSegment.Size() and summed sample durations; Sidx/Sidxs updated together; durations are summed after tfhd/trex defaults are applied and trex defaults are only a fallback to tfhd; the add-sidx tool removes boxes before the index sizes are computed. Not decided: the partition for a given delimiter mix, anchor arithmetic.",
          "as C02 for the composites.", "DESIGN.md §4 C12"),
- "C15": ("id-domain typing of map keys over go/ssa; cross-wired field-copy rule; specification-table equality (H.264 Table E-1); sibling-list lint",
+ "C15": ("id-domain typing of map keys over go/ssa; cross-wired field-copy rule; specification-table equality (H.264 Table E-1); sibling-list lint; signed-modulo bias rule",
          "One clause only: SPS maps are keyed by SPS-domain ids and PPS maps by PPS-domain ids at every lookup and insertion (avc, hevc, mp4/crypto, cmd tools); a key read back from a field written in the same function carries the domain of the written value. Parsed values, cropping formula, slice-header length, codec strings are NOT decided.",
          "the id-domain table is frozen from the field declarations.", "DESIGN.md §4 C15"),
  "C17": ("wire-layout abstract interpretation at bit level for typed SEI messages; state-restore rule; ordering/dependence for the SEI writer; decoder purity (no store through, no return of, a pointer parameter); must-pass-through rules on the EBSP reader reset and the SEI message loop",
@@ -52,13 +52,13 @@ CLAIMED = {
  "C18": ("inverse-table check on map literals; wire-layout abstract interpretation at bit level for AudioSpecificConfig; data-dependence for SetAACDescriptor; specification-table equality; truncate-then-reuse lint; ADTS field-sequence agreement; escape-site count agreement for the explicit frequency",
          "Structural part only: FrequencyTable and ReverseFrequencies are mutual inverses (complete over the literals); AudioSpecificConfig.Encode executed on the decoded abstract value reproduces every bit read, for every object type / frequency index (incl. the 24-bit escape with non-table frequencies) / SBR configuration; the esds decoder-specific info depends on the encoded configuration; the SetAACDescriptor arm that sets parametric stereo also sets SBR and the extension frequency. ADTS is covered only by the table rule (its decoder is a sync-search loop). Numeric exhaustiveness over the domain is another technique family's job.",
          "as C01; a table frequency coded with the 24-bit escape is excluded as a non-canonical encoding (the property is stated for encode-then-decode).", "DESIGN.md §4 C18"),
- "C19": ("data-dependence / dominance obligations, parameter-forwarding and crosswise-argument rules over go/ssa, error discipline, table-reachability rule on guarded lookups into the AC-3 specification tables (linear comparison of the guard with the table length)",
+ "C19": ("data-dependence / dominance obligations, parameter-forwarding and crosswise-argument rules over go/ssa, error discipline, table-reachability rule on guarded lookups into the AC-3 specification tables (linear comparison of the guard with the table length), lost-update-on-copy lint",
          "Narrow clauses only: in AddEmptyTrack trak and trex get the same id derived from the track count, NextTrackID is stored unconditionally from it, both are attached on every path; MdhdBox.SetLanguage computes the packed code from its argument only; the HE-AAC v2 arm of SetAACDescriptor sets SBR and the extension frequency; same-named same-typed parameters are forwarded to each other in the init-segment API; descriptor-builder errors are looked at on every path. Not decided: equality of the built tree after encode/decode, golden files.",
          "forwarding rule is name-based (same name and identical type).", "DESIGN.md §4 C19"),
- "C16": ("SSA taint + dominance guard analysis, loop-cycle analysis, scanner-bound and cursor-walk rules (linear forms over SSA leaves, closed form of constant-step cursors against hoisted length tests), call-graph reachability of explicit panics",
+ "C16": ("SSA taint + dominance guard analysis, loop-cycle analysis, scanner-bound and cursor-walk rules (linear forms over SSA leaves, closed form of constant-step cursors against hoisted length tests), down-counting and cross-slice index rules, unsigned-difference lint, direction-sensitive guards with taint through VTA-resolved dynamic calls, call-graph reachability of explicit panics",
          "Structural necessary conditions over everything reachable from the exported avc/hevc/sei/aac/av1 helpers that take raw bytes or readers: no explicit panic reachable; constant indices / slice bounds, input-derived indices, divisions, counted indexing of local slices and cursor width as in C04; in the start-code scanners `for i < len-k` every element i+c read has c <= k or its own length test; allocations sized by wide untrusted counts are guarded; every cycle of a loop that reads from the sticky-error bit readers passes an error test, an exit taken on all-zero data, or a bounded counter test. Not decided: indices computed from non-input values outside those shapes, nil dereferences, time constants.",
          "as C04.", "DESIGN.md §3 E3/E4, §4 C16"),
- "C20": ("who-may-write analysis of package-level state and who-may-call on storage-sharing reader methods over go/ssa + VTA call graph; decoder/observer purity and ownership rules (no store through or return of a pointer parameter, element owners, adopt-then-append, range-value assignment lint)",
+ "C20": ("who-may-write analysis of package-level state and who-may-call on storage-sharing reader methods over go/ssa + VTA call graph; decoder/observer purity and ownership rules (no store through or return of a pointer parameter, element owners, adopt-then-append, range-value assignment lint, global-storage sharing and in-place refill rules)",
          "Decides absence of hidden shared mutable state in the library: every write rooted at a package-level variable is in an init function or in SetBoxDecoder/RemoveBoxDecoder; no package-level sync/atomic values; no library function calls (*bytes.Buffer).Next/Bytes or (*bufio.Reader).Peek on the io.Reader it was given, so decoded structures do not alias the caller's input. This is a necessary condition for race freedom of independent objects, not a proof of it.",
          "call graph is VTA over CHA; reflection/unsafe writes and races inside the standard library are outside the model.", "DESIGN.md §4 C20"),
 }
